@@ -7,12 +7,36 @@ from mockca import ALL_ACME_ERRORS, RECOVERABLE
 NONREC = [e for e in ALL_ACME_ERRORS if e not in RECOVERABLE]
 
 
+# CA "dialects": ways in which conforming CAs differ that no property mentions (the names in URLs, headers a client may ignore,
+# members it must ignore).  Every scenario is run against one of them, chosen by its tag; what a scenario sets itself is kept.
+DIALECTS = [{}, {"host": "LocalHost"}, {"retry_after": 0}, {"unknown_members": True}, {"orders_field": False},
+            {"retry_after": 7, "host": "LocalHost", "unknown_members": True}, {}]
+
+
+def with_dialect(spec):
+    import zlib
+    if spec.get("no_dialect") or os.environ.get("VERIF_NO_DIALECT"):
+        return spec, {}
+    d = DIALECTS[zlib.crc32(spec["tag"].encode()) % len(DIALECTS)]
+    if not d:
+        return spec, {}
+    eps = {}
+    for name, e in (spec.get("endpoints") or {"A": {}}).items():
+        ca = dict(e.get("ca") or {})
+        if not ca.get("tls"):
+            for k, v in d.items():
+                ca.setdefault(k, v)
+        eps[name] = dict(e, ca=ca)
+    return dict(spec, endpoints=eps), d
+
+
 def run_one(spec):
     """spec: dict(tag=..., scenario kwargs..., steps=[...]) -> dict(tag, events, results).
     steps: list of ("run", {attempts, env}) | ("call", fn(scenario)) executed in order (default one run)."""
-    kw = {k: v for k, v in spec.items() if k not in ("steps", "meta")}
+    spec, dialect = with_dialect(spec)
+    kw = {k: v for k, v in spec.items() if k not in ("steps", "meta", "no_dialect")}
     sc = Scenario(**kw)
-    res = {"tag": spec["tag"], "meta": spec.get("meta"), "runs": [], "error": None}
+    res = {"tag": spec["tag"], "meta": spec.get("meta"), "runs": [], "error": None, "dialect": dialect}
     try:
         sc.setup()
         for step in spec.get("steps") or [("run", {})]:
